@@ -2,14 +2,15 @@
 META = {
     "level": "exploration",
     "technique": "model-based runtime monitoring: seeded operation histories on real SDMF/MDMF directories of an in-process grid, compared after every step with a name -> (caps, metadata) map model; virtual clock inside dirnode; injected storage-server failures",
-    "text": "Histories of <= 30 operations (set_uri, set_node, set_children, add_file, create_subdirectory with overwrite in {True, False, ONLY_FILES}; delete with must_exist/must_be_directory/must_be_file; move_child_to within and across directories incl. self-rename; set_metadata_for; list/get/get_metadata_for/has_child) over <= 3 real directories, with a small pool of colliding and normalisation-equivalent names, known and unknown caps. After every operation the result (value or exception type) and the full listing of every directory are compared with a dict model. dirnode.time is replaced by the virtual reactor clock, advanced between operations: link-creation time must survive updates, link-modification time must be the `now` handed to that update and never go back, caller-supplied 'tahoe' metadata must not be stored, 'no-write' metadata must diminish the child. Storage-server write failures are injected around some operations: a failed operation must leave a state the model allows (unchanged; for rename: source still linked), a failed rename never loses the child, a refused no-overwrite add changes nothing, ONLY_FILES never replaces a directory.",
-    "note": "Single writer (one client). Injected failures are clean refusals ('raise' before the server method runs), so a failed publish has no partial effect; partial-write recovery belongs to C09-C12/C47. Trusts unicodedata NFC and the hash chain in _caps.py for expected read-caps.",
+    "text": "Histories of <= 30 operations (set_uri, set_node, set_children, add_file, create_subdirectory with overwrite in {True, False, ONLY_FILES}; delete with must_exist/must_be_directory/must_be_file; move_child_to within and across directories incl. self-rename; set_metadata_for; list/get/get_metadata_for/has_child) over <= 3 real directories, with a small pool of colliding and normalisation-equivalent names, known and unknown caps. After every operation the result (value or exception type) and the full listing of every directory are compared with a dict model. dirnode.time is replaced by the virtual reactor clock, advanced between operations: link-creation time must survive updates, link-modification time must be the `now` handed to that update and never go back, caller-supplied 'tahoe' metadata must not be stored, 'no-write' metadata must diminish the child. A two-writer family (two clients, own nodes for one directory, both linking the same normalised name without overwrite / ONLY_FILES against a directory; sequential, free and steered-collision orders where A's test-and-set writes are held in flight until B's add completed) requires that at most one add reports success and the listing holds the winner's child. Storage-server write failures are injected around some operations: a failed operation must leave a state the model allows (unchanged; for rename: source still linked), a failed rename never loses the child, a refused no-overwrite add changes nothing, ONLY_FILES never replaces a directory.",
+    "note": "Histories use a single writer; the two-writer family races exactly two adds. Injected failures are clean refusals ('raise' before the server method runs), so a failed publish has no partial effect; partial-write recovery belongs to C09-C12/C47. Trusts unicodedata NFC and the hash chain in _caps.py for expected read-caps.",
 }
 LEVEL = "exploration"
 BUDGET = {"quick": 40, "thorough": 240}
 SHARDS = {"quick": 1, "thorough": 6}
 
 import copy
+import random
 from vf import env  # noqa
 from vf.checks import _dir as D
 from vf.checks import _caps as M
@@ -51,7 +52,7 @@ def run(ck):
     try:
         i = 0
         ncases = 0
-        while ck.more(min_cases=30):
+        while ck.more(min_cases=100):
             i += 1
             if not ck.mine(i):
                 continue
@@ -64,18 +65,176 @@ def run(ck):
                     History(ck, g, crng, i, shim).run()
             finally:
                 g.close()
+            # two writers (two clients) racing to link the same name without overwrite
+            for j in range(3):
+                trng = ck.rng("two-writers", i, j)
+                KEYPOOL.rewind()
+                random.seed(trng.getrandbits(32))     # BackoffAgent draws its retry delay from the global generator
+                g = VGrid(nservers=4, seed=trng.getrandbits(32), profile=trng.choice(["fifo", "per-server-fifo", "per-server-fifo", "free"]),
+                          keep_log=True)
+                try:
+                    with ck.watchdog(180, "two writers %d/%d" % (i, j)):
+                        try:
+                            two_writers(ck, g, trng, (i, j))
+                        except D.OpFailed as e:
+                            if e.st == "err":
+                                ck.violation("directory-operation-failed-on-honest-grid", "two-writer setup: %s" % str(e)[:300], {"case": [i, j]})
+                            else:
+                                ck.inconclusive_because("two-writer scenario did not finish (%s): %s" % (e.st, e.what))
+                finally:
+                    g.close()
             ncases += 1
-            if ck.tier == "quick" and ncases >= 40:
+            if ck.tier == "quick" and ncases >= 34:
                 break
     finally:
         restore()
     ck.exhaustive = False
-    ck.require_monitor("listing-equals-model", "operation-result", "timestamps", "failed-op-state", "failed-rename-keeps-source")
+    ck.require_monitor("listing-equals-model", "operation-result", "timestamps", "failed-op-state", "failed-rename-keeps-source",
+                       "two-writers-at-most-one-no-overwrite-add-wins")
+    ck.require_reach("two-writers-publish-collided", "two-writers-loser-got-ExistingChildError", "two-writers-sequential",
+                     "two-writers-only-files-vs-directory", "two-writers-free-interleaving")
     ck.require_reach("no-overwrite-add-refused", "only-files-refused-directory", "only-files-replaced-file", "rename-across-directories",
                      "rename-within-directory", "self-rename", "rename-onto-existing", "rename-refused-target-exists",
                      "delete-wrong-type-refused", "delete-missing-refused", "metadata-updated", "no-write-diminished",
                      "caller-tahoe-ignored", "overwrite-preserved-linkcrtime", "nfc-equivalent-name-hit-existing-entry",
                      "op-failed-by-injected-fault", "rename-failed-by-injected-fault", "mdmf-directory", "sdmf-directory")
+
+
+def two_writers(ck, g, rng, caseno):
+    """Clients A and B hold their own nodes for one directory and both link the same (normalised) name without
+    overwrite.  Orders: sequential, free interleaving, and a steered collision (A has read the directory and sent its
+    test-and-set writes; they are held back until B's add has completed, then released, so A's publish collides and
+    A has to retry)."""
+    from allmydata.dirnode import ONLY_FILES
+    cA, cB = g.make_client(k=2, happy=1, n=4), g.make_client(k=2, happy=1, n=4)
+    version = rng.choice([D.SDMF, D.MDMF])
+    d0 = D.ok(g, cA.create_dirnode(version=version), "create_dirnode")
+    cap = d0.get_uri()
+    existing = {}
+    for k in range(rng.choice([0, 1, 3])):
+        s_ = D.fake_cap(rng, rng.choice(["SSK", "CHK", "DIR2"]))
+        existing["old%d" % k] = s_
+    if existing:
+        D.ok(g, d0.set_children({n_: ((c_, None) if D.CapInfo(c_).is_write else (None, c_)) for n_, c_ in existing.items()}), "set_children")
+    nodeA, nodeB = cA.create_node_from_uri(cap), cB.create_node_from_uri(cap)
+    mode = rng.choice(["no-overwrite", "no-overwrite", "only-files"])
+    base = rng.choice(["n", "é", "Å", "x:y"])
+    spell = [x for x in ("é", "é", "Å", "Å", "Å") if D.nfc(x) == D.nfc(base)] or [base]
+    nameA, nameB = rng.choice(spell), rng.choice(spell)
+    name = D.nfc(base)
+    X = D.fake_cap(rng, rng.choice(["SSK", "MDMF", "CHK"]))
+    Y = D.fake_cap(rng, rng.choice(["DIR2", "DIR2-MDMF", "DIR2-CHK"]) if mode == "only-files" else rng.choice(["SSK", "CHK", "DIR2"]))
+    owA, owA_l = (ONLY_FILES, "ONLY_FILES") if mode == "only-files" else (False, "False")
+    if mode == "only-files":
+        ck.hit("two-writers-only-files-vs-directory")
+    order = rng.choice(["collide", "collide", "collide", "B-first", "A-first", "free", "free"])
+    opA = rng.choice(["set_uri", "set_node", "set_children"])
+
+    def give(cap_):
+        return (cap_, None) if D.CapInfo(cap_).is_write else (None, cap_)
+
+    def startA():
+        rw, ro = give(X)
+        if opA == "set_uri":
+            return nodeA.set_uri(nameA, rw, ro, {"by": "A"}, overwrite=owA)
+        if opA == "set_node":
+            return nodeA.set_node(nameA, cA.create_node_from_uri(rw, ro), {"by": "A"}, overwrite=owA)
+        return nodeA.set_children({nameA: (rw, ro, {"by": "A"})}, overwrite=owA)
+
+    def startB():
+        rw, ro = give(Y)
+        return nodeB.set_uri(nameB, rw, ro, {"by": "B"}, overwrite=False)
+
+    def watch(d):
+        box = []
+        d.addBoth(box.append)
+        return box
+
+    WR = ">" + WRITEV + "#"
+    held = []
+    desc = {"case": list(caseno), "order": order, "mode": mode, "opA": opA, "names": [nameA, nameB], "version": "MDMF" if version else "SDMF",
+            "A_child": D.show(X)[:40], "B_child": D.show(Y)[:40]}
+    if order == "A-first":
+        ck.hit("two-writers-sequential")
+        boxA = watch(startA())
+        g.sched.run(until=lambda: bool(boxA), horizon=7200.0)
+        boxB = watch(startB())
+        g.sched.run(until=lambda: bool(boxB), horizon=7200.0)
+    elif order == "B-first":
+        ck.hit("two-writers-sequential")
+        boxB = watch(startB())
+        g.sched.run(until=lambda: bool(boxB), horizon=7200.0)
+        boxA = watch(startA())
+        g.sched.run(until=lambda: bool(boxA), horizon=7200.0)
+    elif order == "free":
+        ck.hit("two-writers-free-interleaving")
+        boxA, boxB = watch(startA()), watch(startB())
+        if rng.random() < .5:
+            boxA, boxB = boxA, boxB
+        g.sched.run(until=lambda: bool(boxA) and bool(boxB), horizon=7200.0)
+    else:
+        boxA = watch(startA())
+        # A reads the directory, runs its modifier (the name is free) and sends its test-and-set writes ...
+        g.sched.run(until=lambda: bool(boxA) or any(WR in m.label and m.direction == "req" for m in g.sched.net), horizon=7200.0)
+        held = [m for m in g.sched.net if WR in m.label and m.direction == "req"]
+        for m in held:
+            g.sched.net.remove(m)          # ... which stay in flight
+        desc["held_writes"] = len(held)
+        boxB = watch(startB())
+        g.sched.run(until=lambda: bool(boxB), horizon=7200.0)      # B's whole add happens meanwhile
+        g.sched.net.extend(held)           # A's writes arrive now
+        g.sched.run(until=lambda: bool(boxA), horizon=7200.0)
+    if not boxA or not boxB:
+        raise D.OpFailed("hang", None, "two writers (%s)" % order)
+    from twisted.python.failure import Failure
+    resA, resB = boxA[0], boxB[0]
+    okA, okB = not isinstance(resA, Failure), not isinstance(resB, Failure)
+    errA = None if okA else resA.type.__name__
+    errB = None if okB else resB.type.__name__
+    desc.update(A_result=errA or "success", B_result=errB or "success")
+    collided = sum(1 for r in g.calls if r["method"] == WRITEV and isinstance(r.get("result"), tuple) and r["result"] and r["result"][0] is False)
+    if collided:
+        ck.hit("two-writers-publish-collided")
+        desc["refused_test_and_set_writes"] = collided
+    if "ExistingChildError" in (errA, errB):
+        ck.hit("two-writers-loser-got-ExistingChildError")
+    final = D.ok(g, g.make_client(k=2, happy=1, n=4).create_node_from_uri(cap).list(), "final listing")
+    ck.mon("two-writers-at-most-one-no-overwrite-add-wins")
+    got = final.get(name)
+    got_caps = D.node_caps(got[0]) if got else None
+
+    def caps_of(cap_):
+        info = D.CapInfo(cap_)
+        return (cap_ if info.is_write else None, info.readonly)
+
+    who = "nobody" if got is None else "A" if got_caps == caps_of(X) else "B" if got_caps == caps_of(Y) else "?"
+    desc["final_entry"] = who
+    if okA and okB:
+        ck.violation("no-overwrite-add-replaced-entry",
+                     "two writers linked %r without overwrite (A: %s overwrite=%s, B: set_uri overwrite=False, order %s): BOTH report success; "
+                     "the directory holds %s's child, the other writer's entry was replaced" % (name, opA, owA_l, order, who), desc)
+    elif who == "?":
+        ck.violation("child-differs-from-model", "two writers: final entry %r is neither writer's child: %r" % (name, got_caps), desc)
+    elif (okA and who != "A") or (okB and who != "B"):
+        ck.violation("listing-differs-from-model", "two writers: %s reports success but the directory holds %s's child under %r" % (
+            "A" if okA else "B", who, name), desc)
+    elif not okA and not okB:
+        if order != "free":
+            ck.violation("operation-result-differs-from-model", "two writers (%s): both adds of the free name %r failed (%s / %s)" % (order, name, errA, errB), desc)
+        else:
+            ck.skip("two-writers-both-gave-up")
+    if order in ("collide", "B-first") and okB and okA is False and errA != "ExistingChildError":
+        ck.observe("two-writers-loser-error-" + str(errA))
+    # bystanders untouched, exactly one entry for the name
+    want_names = set(existing) | ({name} if who != "nobody" else set())
+    if set(final) != want_names:
+        ck.violation("listing-differs-from-model", "two writers: names %r, expected %r" % (sorted(final), sorted(want_names)), desc)
+    else:
+        for n_, c_ in existing.items():
+            if D.node_caps(final[n_][0]) != caps_of(c_):
+                ck.violation("child-differs-from-model", "two writers: bystander %r changed" % (n_,), desc)
+    ck.case("two-writers-" + order, key=(caseno, order, mode, opA, nameA, nameB), nontrivial=bool(collided),
+            sample=desc)
 
 
 class History(object):
@@ -702,3 +861,5 @@ def _short(x):
 #   c20-no-write-ignored-by-setter     MetadataSetter does not diminish on 'no-write'      -> child-differs-from-model
 #   c20-deleter-ignores-must-be-file   Deleter must_be_file check removed                  -> operation-result-differs-from-model
 #   c20-linkmotime-not-updated         linkmotime kept when present                        -> linkmotime-not-now
+#   seeded/C20-2                       Adder checks existence only when first_time: after a real write collision the retry
+#                                      replaces the other writer's entry -> no-overwrite-add-replaced-entry (two-writer family)
